@@ -466,3 +466,148 @@ Proof.
   - exfalso. destruct HBA as [B1 B2]. cbn [idx_fresh] in Hfresh. rewrite B1, B2 in Hack.
     rewrite wire_small in Hack by lia. rewrite hdr_acks_zero in Hack by lia. discriminate.
 Qed.
+
+(* ---------- Inc (CallbackP) through every event: needed to read "success" off the outputs ---------- *)
+Lemma send_frags_pfrags frags : forall c fid n r i, c_pfrags (send_frags c fid n r i frags) = c_pfrags c.
+Proof. induction frags as [|f rest IH]; intros; cbn [send_frags]; [reflexivity|]. rewrite IH. reflexivity. Qed.
+
+Lemma split_frags_nonempty e p : (length p <> 0)%nat -> split_frags (S (length p)) e p <> [].
+Proof. intros H. cbn [split_frags]. destruct (length p =? 0)%nat eqn:E; [apply Nat.eqb_eq in E; contradiction|]. destruct (_ <? _); discriminate. Qed.
+
+Lemma send_Inc e c p r k c' o : 0 <= e_max_payload e -> Inc c -> send e c p r k = (c', o) -> Inc c'.
+Proof.
+  unfold send. intros He I E. destruct (negb _); [injection E as <- <-; exact I|].
+  destruct (len p >? e_max_payload e) eqn:Eg; [|injection E as <- <-; exact I].
+  assert (Hne : split_frags (S (length p)) e p <> []) by (apply split_frags_nonempty; unfold len in Eg; lia).
+  remember (split_frags (S (length p)) e p) as frags eqn:Ef. clear Ef.
+  destruct (len p >? e_max_frag e * e_max_frags e); injection E as <- <-; [exact I|].
+  unfold Inc. cbn. rewrite send_frags_pfrags. cbn. apply ClearP.Forall_dset; [exact I|].
+  unfold incomplete. cbn. destruct frags; [contradiction|reflexivity].
+Qed.
+
+Theorem step_Inc e c x c' o : 0 <= e_max_payload e -> Inc c -> step e c x = (c', o) -> Inc c'.
+Proof.
+  intros He I E. destruct x; cbn [step] in E.
+  - eapply send_Inc; eassumption.
+  - unfold client_tick in E.
+    destruct (client_update c now) as [c0 o0] eqn:E0.
+    assert (I0 : Inc c0).
+    { unfold client_update in E0. destruct (_ && (now >? _)); destruct (_ && (_ >? c_temp_timeout _)); injection E0 as <- <-; exact I. }
+    destruct (status_eqb (c_status c0) DROPPED); [injection E as <- <-; exact I0|].
+    match type of E with context [match ?y with (_, _) => _ end] => destruct y as [c1 o1] eqn:E1 end.
+    assert (I1 : Inc c1).
+    { destruct r as [|er|d orcs]; try (injection E1 as <- <-; exact I0).
+      destruct (recv c0 now d orcs) as [c'' o''] eqn:Er. injection E1 as <- <-. eapply recv_Inc; eassumption. }
+    destruct (raised o1); [injection E as <- <-; exact I1|].
+    destruct (_ >? _); [|injection E as <- <-; exact I1].
+    destruct (build_packet e c1 now) as [c2 pk] eqn:E2.
+    destruct (check_timeout false c2 now) as [c3 o3] eqn:E3. injection E as <- <-.
+    assert (I2 : Inc c2) by (unfold Inc; rewrite (build_packet_pfrags _ _ _ _ _ E2); exact I1).
+    eapply timeout_loop_Inc; eassumption.
+  - unfold server_tick in E. destruct (_ >? _); [|injection E as <- <-; exact I].
+    destruct (build_packet e c now) as [c1 pk] eqn:E1.
+    destruct (check_timeout true c1 now) as [c2 o2] eqn:E2. injection E as <- <-.
+    assert (I1 : Inc c1) by (unfold Inc; rewrite (build_packet_pfrags _ _ _ _ _ E1); exact I).
+    eapply timeout_loop_Inc; eassumption.
+  - eapply recv_Inc; eassumption.
+  - injection E as <- <-. unfold disconnect. destruct (_ || _); exact I.
+  - injection E as <- <-. destruct which as [|[[q|q|]|[q|q|]|]|q]; exact I.
+  - injection E as <- <-. exact I.
+  - injection E as <- <-. exact I.
+  - injection E as <- <-. exact I.
+Qed.
+
+Lemma gstep_Inc e G vl : 0 <= e_max_payload e -> Inc (nA (g_net G)) -> Inc (nA (g_net (gstep e G vl))).
+Proof.
+  intros He I. destruct vl as [[x|x] l]; cbn [gstep nstep].
+  - destruct (step e (nA (g_net G)) x) as [a' o] eqn:E. cbn. eapply step_Inc; eassumption.
+  - destruct (step e (nB (g_net G)) x) as [b' o] eqn:E. cbn. exact I.
+Qed.
+
+Lemma grun_Inc e vs : forall G, 0 <= e_max_payload e -> Inc (nA (g_net G)) -> Inc (nA (g_net (grun e G vs))).
+Proof.
+  induction vs as [|v r IH]; intros G He I; cbn [grun fold_left]; [exact I|]. apply IH; [exact He|]. apply gstep_Inc; assumption.
+Qed.
+
+(* ---------- the theorems over joint histories ---------- *)
+Lemma wf2_run_app e vs : forall G ws, wf2_run e G (vs ++ ws) <-> wf2_run e G vs /\ wf2_run e (grun e G vs) ws.
+Proof.
+  induction vs as [|v r IH]; intros G ws; cbn [app wf2_run grun fold_left]; [tauto|].
+  rewrite IH. unfold grun. tauto.
+Qed.
+
+(* every datagram a step of A resolves as acknowledged had been accepted by B *)
+Theorem acked_means_accepted e S K G vs x l a0 d :
+  J S K G -> wf2_run e G (vs ++ [(NA x, l)]) ->
+  let G' := grun e G vs in
+  pre_recv (nA (g_net G')) x = Some (a0, d) -> opens a0 d = true -> acked_accepted G' a0 d.
+Proof.
+  intros HJ Hwf G' Hpre Hop. apply wf2_run_app in Hwf as [W1 [W2 _]].
+  eapply acked_accepted_step; [eapply J_run; eassumption|exact W2|exact Hpre|exact Hop].
+Qed.
+
+(* a success callback: some pending datagram named by the header being processed, and so accepted by B *)
+Theorem success_means_accepted e S K G vs x l a' o :
+  0 <= e_max_payload e -> J S K G -> Inc (nA (g_net G)) -> wf2_run e G (vs ++ [(NA x, l)]) ->
+  let G' := grun e G vs in
+  step e (nA (g_net G')) x = (a', o) -> cb_true o ->
+  exists a0 d, pre_recv (nA (g_net G')) x = Some (a0, d) /\ opens a0 d = true /\ acked_accepted G' a0 d /\
+    exists s t i dA, In (s, t) (c_packs a0) /\ hdr_acks (h_ack (d_hdr d)) (h_ackbits (d_hdr d)) s = true /\
+      s = wire i /\ 1 <= i <= g_nA G' /\ In i (idx_acc (g_B G')) /\
+      In (i, dA) (g_AB G') /\ In dA (wAB (g_net G')) /\ h_seq (d_hdr dA) = s /\ In dA (g_accB G').
+Proof.
+  intros He HJ HI Hwf G' E Ht.
+  pose proof (grun_Inc e vs G He HI) as HI'. fold G' in HI'.
+  destruct (step_true _ _ _ _ _ HI' E Ht) as (now & d & orcs & c0 & Hx & (G1 & (ms & G2) & _) & s & t & Hpend & Hack).
+  assert (Hop : opens c0 d = true) by (unfold opens; rewrite G1, G2; reflexivity).
+  assert (Hpre : pre_recv (nA (g_net G')) x = Some (c0, d)).
+  { destruct Hx as [[-> ->]|[-> ->]]; cbn [pre_recv]; [reflexivity|].
+    destruct (status_eqb _ DROPPED) eqn:Ed; [|reflexivity].
+    (* a dropped client does not reach the receive path: no success could have been reported *)
+    exfalso. cbn [step] in E. unfold client_tick in E.
+    destruct (client_update (nA (g_net G')) now) as [c1 o1] eqn:E1. cbn [fst] in Ed. rewrite Ed in E. injection E as <- <-.
+    destruct Ht as [id Hin]. unfold client_update in E1.
+    destruct (_ && (now >? _)); destruct (_ && (_ >? c_temp_timeout _)); injection E1 as <- <-;
+      try solve [destruct Hin]; destruct (c_conn_cb _); try solve [destruct Hin]; destruct Hin as [H|[]]; discriminate. }
+  pose proof (acked_means_accepted e S K G vs x l c0 d HJ Hwf Hpre Hop) as Hacc. fold G' in Hacc.
+  exists c0, d. split; [exact Hpre|]. split; [exact Hop|]. split; [exact Hacc|].
+  destruct (Hacc s t Hpend Hack) as (i & dA & H1 & H2 & H3 & H4 & H5 & H6).
+  exists s, t, i, dA. repeat split; try assumption; try lia.
+  apply wf2_run_app in Hwf as [W1 _]. pose proof (J_run e S K vs G HJ W1) as [_ _ _ Hw _ _ _ _]. fold G' in Hw.
+  rewrite <- Hw. apply (in_map snd) in H4. exact H4.
+Qed.
+
+(* ---------- short sessions: (near) and (fresh acks) hold by themselves ---------- *)
+Lemma J_newest_le S K G m acc : J S K G -> g_B G = Some (m, acc) -> 1 <= m <= g_nA G.
+Proof.
+  intros [_ HAB _ _ HB Hacc _ _] Eg. rewrite Eg in HB. cbn in HB. destruct HB as [HR _].
+  assert (Hin : In m (idx_acc (g_B G))) by (rewrite Eg; cbn; apply InB_In; apply (R_in _ _ _ HR)).
+  destruct (Hacc m Hin) as (d & Hd & _). apply (HAB _ _ Hd).
+Qed.
+
+Lemma auth_wf2_ev S K G vl : J S K G -> g_nA G <= HALF + 1 -> auth_ev G vl -> wf2_ev G vl.
+Proof.
+  intros HJ Hn Ha. destruct vl as [[x|x] l]; cbn [auth_ev wf2_ev] in *.
+  - destruct Ha as [Hop Ha]. split; [exact Hop|]. intros d Hd Ho. destruct (Ha d Hd Ho) as (g & Hin). exists g. split; [exact Hin|].
+    pose proof HJ as [_ HAB _ _ _ Hacc HBA _]. specialize (HBA g d Hin). unfold BAok in HBA.
+    destruct g as [[m acc]|]; cbn [idx_fresh]; [|unfold RING, HALF in *; lia].
+    destruct HBA as (_ & _ & B3 & B4). destruct (Hacc m (B4 m B3)) as (dm & Hdm & _). destruct (HAB _ _ Hdm) as [Hm _].
+    unfold FRESH, RING, HALF in *. lia.
+  - intros d Hd Ho. pose proof (Ha d Hd Ho) as Hin. split; [exact Hin|].
+    pose proof HJ as [_ HAB _ _ _ _ _ _]. destruct (HAB _ _ Hin) as [Hl _].
+    intros m acc Eg. pose proof (J_newest_le _ _ _ _ _ HJ Eg). unfold HALF in *. lia.
+Qed.
+
+Theorem auth_run_wf2 e S K vs : forall G, J S K G -> auth_run e G vs -> wf2_run e G vs.
+Proof.
+  induction vs as [|v r IH]; intros G HJ Ha; cbn [auth_run wf2_run] in *; [exact I|].
+  destruct Ha as (A1 & A2 & A3). pose proof (auth_wf2_ev _ _ _ _ HJ A2 A1) as W. split; [exact W|].
+  apply IH; [apply J_step; assumption|exact A3].
+Qed.
+
+(* A's counter never decreases, so "A consumes at most HALF + 1 sequence numbers" can be read off the end *)
+Lemma auth_run_app e vs : forall G ws, auth_run e G (vs ++ ws) <-> auth_run e G vs /\ auth_run e (grun e G vs) ws.
+Proof.
+  induction vs as [|v r IH]; intros G ws; cbn [app auth_run grun fold_left]; [tauto|].
+  rewrite IH. unfold grun. tauto.
+Qed.
